@@ -55,6 +55,14 @@ def is_debug_cond(e):
     return False
 
 
+def same_malformed(x, r0):
+    """x is the replay's own Malformed result r0: passed through, or rebuilt from its two payload fields"""
+    if x == r0:
+        return True
+    pay = ('as', r0, 'Malformed')
+    return x is not None and x[0] == 'agg' and variant_name(x) == 'Malformed' and tuple(x[2]) == (('fld', pay, '0'), ('fld', pay, '1'))
+
+
 def variant_decoder_of(v):
     """E if v builds the variant decoder of encoding E: `E.new_variant_decoder()` or, written out, `E.variant.new_variant_decoder()`"""
     if v[0] != 'call' or not v[2]:
@@ -518,7 +526,7 @@ def helpers(rep, f, c, sink):
                 elif v == 'Malformed':
                     ok = not ce and p.end[0] == 'return' and rv is not None and rv[0] == 'agg' and rv[2][1] == C(0) and rv[2][2] == tuple_field(r1, 2)
                     if nwithheld == 1:
-                        ok &= rv is not None and rv[0] == 'agg' and rv[2][0] == tuple_field(r1, 0) and stores == ['Converting']
+                        ok &= rv is not None and rv[0] == 'agg' and same_malformed(rv[2][0], tuple_field(r1, 0)) and stores == ['Converting']
                         rep.ob('C10-D1.replay.malformed', fn, ok, 'a malformed replayed byte must be reported as (r1, 0, w1) with nothing read from src', at, None, c)
                         seen.add((0, 'Malformed'))
                     else:
@@ -540,7 +548,7 @@ def helpers(rep, f, c, sink):
                                    'so the reported error position is off by one (expected Malformed(len, after + 1), got %s)' % (N(res) if res else '?'), at, None, c)
                             seen.add((0, 'Malformed', 'k=1'))
                         else:
-                            ok &= rv is not None and rv[0] == 'agg' and rv[2][0] == tuple_field(r1, 0) and stores == ['Converting']
+                            ok &= rv is not None and rv[0] == 'agg' and same_malformed(rv[2][0], tuple_field(r1, 0)) and stores == ['Converting']
                             rep.ob('C10-D1.replay.malformed', fn, ok, 'a malformed replay that consumed both bytes must be reported as (r1, 0, w1)', at, None, c)
                             seen.add((0, 'Malformed', 'k=2'))
                 elif v == 'OutputFull':
